@@ -282,3 +282,6 @@ func TestProbeCoalescedLost(t *testing.T) {
 		t.Fatal(r.Fail)
 	}
 }
+
+// TestDeltaUnderConcurrency: merges arriving over several links at once, racing local operations (vkit/crdtrace.go).
+func TestDeltaUnderConcurrency(t *testing.T) { vkit.Check(t, vkit.GenCrdtRace, vkit.RunCrdtRaceDelta) }
